@@ -148,6 +148,14 @@ class ClassRef:
         return f"<class {self.info.name}>"
 
 
+def _vec_depth(v) -> int:
+    d = 0
+    while isinstance(v, Vec) and v.items:
+        d += 1
+        v = v.items[0]
+    return d
+
+
 class Vec:
     """numpy array of *known* length (possibly nested) with element-wise arithmetic"""
 
@@ -383,6 +391,7 @@ class Interp:
         self.func_stack: list[str] = []
         self.closure_decorators: dict[str, list] = {}
         self.reads: list[tuple] = []  # (base, idx, loops, func) of every subscript read of a symbolic array
+        self.div_log = None  # list collecting (divisor, line) of every symbolic division when set
         self.while_once = None  # callback(node) -> bool: interpret exactly one iteration
         self.while_iterations: list = []
         self.while_exit = None
@@ -1293,6 +1302,12 @@ class Interp:
         # element-wise on vectors
         if isinstance(a, Vec) or isinstance(b, Vec):
             if isinstance(a, Vec) and isinstance(b, Vec):
+                # numpy aligns trailing axes: a table against a flat vector works row by row
+                da, db = _vec_depth(a), _vec_depth(b)
+                if da > db:
+                    return Vec([self.binop(op, x, b, node) for x in a.items])
+                if db > da:
+                    return Vec([self.binop(op, a, y, node) for y in b.items])
                 if len(a) != len(b):
                     self.fail(node, "length mismatch in element-wise operation")
                 return Vec([self.binop(op, x, y, node) for x, y in zip(a.items, b.items)])
@@ -1313,6 +1328,8 @@ class Interp:
                 return sp.Rational(1, a ** (-b))
             r = _BIN[t](a, b)
         elif t is ast.Div:
+            if self.div_log is not None and not getattr(b, "is_number", True):
+                self.div_log.append((b, getattr(node, "lineno", None)))
             r = a / b
         elif t is ast.FloorDiv:
             if is_concrete(a) and is_concrete(b):
